@@ -120,3 +120,9 @@ reg("C20", level="model_checking", overlay="world",
     budget={"quick": 150, "thorough": 1200}, workers={"quick": 16, "thorough": 16},
     assumptions=["TLS certificate verification and the TLS 1.3 minimum are outside the property", "QUIC/SCION transport of the same exchange is not executed (it shares ReadData/ExportKeys)",
                  "scripts deviate from the valid exchange in one place"])
+
+reg("C11", level="model_checking", overlay="world",
+    technique="stateless deviation-bounded exploration of loss/time histories around the real NTS client, listener, key-exchange handler and key provider in one bubble; wire-level oracle",
+    level_text="Client pool accounting, request construction at every pool level, server cookie replenishment and key rotation all run as shipped (real TLS key exchange, real AEAD) inside a bubble; the explorer enumerates loss runs and day-scale time steps inside the bound and judges every request and reply on the wire.",
+    budget={"quick": 150, "thorough": 1200}, workers={"quick": 16, "thorough": 16},
+    assumptions=["SCION transport shares the request/response builders and is not run separately here", "cookies are the 124-byte cookies the project's servers issue"])
